@@ -2,6 +2,7 @@
 programmable peer. Nothing touches real sockets or the wall clock; time advances only when the loop would block."""
 import asyncio
 import datetime as _dt
+import heapq
 import selectors
 
 EPOCH = _dt.datetime(2024, 1, 2, 0, 0, 0, tzinfo=_dt.timezone.utc)
@@ -113,6 +114,7 @@ class Net:
         self.conns = []
         self.log = []
         self.pre_event = None           # hook called with the connection before a write / close is logged
+        self._inflight, self._seq, self._armed, self._token = [], 0, None, 0
         self.loop = VLoop(self)
 
     def next_connect(self):
@@ -130,8 +132,37 @@ class Net:
             reply = self.responder(conn, data)
         else:
             reply = self.replies.pop(0) if self.replies else []
+        # arrivals are computed from the NOMINAL time (whole milliseconds) so that the tie-breaking offsets never add up;
+        # one dispatcher delivers exactly one item per loop iteration, in (arrival, scheduling order)
+        nominal = round(self.loop.time(), 3)
         for delay, item in reply or []:
-            self.loop.call_later(delay, conn.transport._deliver, item)
+            self._seq += 1
+            heapq.heappush(self._inflight, (round(nominal + delay, 6), self._seq, conn, item))
+        self._arm()
+
+    def _arm(self):
+        if not self._inflight:
+            return
+        when = self._inflight[0][0] + 1e-7              # a timer due at the same instant fires first
+        if self._armed is None or when < self._armed[0] - 1e-12:
+            self._token += 1
+            self._armed = (when, self._token)
+            self.loop.call_at(max(when, self.loop.time()), self._dispatch, self._token)
+
+    def _dispatch(self, token):
+        if self._armed is None or self._armed[1] != token:
+            return                                       # a superseded timer
+        self._armed = None
+        if self._inflight and self._inflight[0][0] + 1e-7 <= self.loop.time() + 1e-12:
+            _, _, conn, item = heapq.heappop(self._inflight)
+            conn.transport._deliver(item)
+            if self._inflight and self._inflight[0][0] + 1e-7 <= self.loop.time() + 1e-12:
+                # next item of the same instant: one loop iteration later
+                self._token += 1
+                self._armed = (self.loop.time(), self._token)
+                self.loop.call_soon(self._dispatch, self._token)
+                return
+        self._arm()
 
     # ---- running --------------------------------------------------------------------------------
     def run(self, coro):
